@@ -483,11 +483,23 @@ var codecImpl = map[string]core.Adapter{
 				return "FAIL NewDecoder: " + err.Error()
 			}
 			v := reflect.New(t)
+			kept, keptDump := reflect.New(t).Elem(), ""
 			for i := 0; ; i++ {
 				if !reuse {
 					v = reflect.New(t)
 				}
 				err := d.Decode(v.Interface())
+				// a copy taken of the struct after the previous paragraph (`x := *v`, as a loop that
+				// collects results does) is the caller's: the next Decode must not reach into it
+				if reuse && i > 0 && err == nil {
+					if now := dumpGoRecord(kept); now != keptDump {
+						return fmt.Sprintf("FAIL the copy kept of paragraph %d changed when paragraph %d was decoded into the same variable: %s, was %s", i-1, i, now, keptDump)
+					}
+				}
+				if reuse && err == nil {
+					kept.Set(v.Elem())
+					keptDump = dumpGoRecord(kept)
+				}
 				if err == io.EOF {
 					if i != len(want) {
 						return fmt.Sprintf("FAIL Decoder (reuse=%v) ends after %d paragraphs, Unmarshal into a slice gave %d", reuse, i, len(want))
